@@ -1,21 +1,11 @@
 package larking
 
-import (
-	"google.golang.org/genproto/googleapis/api/annotations"
-)
-
 func init() {
 	vfHarnesses["VerifH_match_sound"] = VerifH_match_sound
 	vfHarnesses["VerifH_match_complete"] = VerifH_match_complete
 	vfHarnesses["VerifH_match_order"] = VerifH_match_order
 	vfHarnesses["VerifH_match_tokencap"] = VerifH_match_tokencap
 	vfHarnesses["VerifH_match_unicode"] = VerifH_match_unicode
-}
-
-type vfRule struct {
-	m    int    // method index
-	verb string // GET, POST, ... or "*" (custom kind)
-	tmpl string
 }
 
 // vfRuleSets: the curated rule-set family of the quick tier (DESIGN Appendix C.3). Every set also
@@ -43,25 +33,6 @@ func vfMethodName(i int) string {
 		return "/vf.S/M0"
 	}
 	return "/vf.S/M1"
-}
-
-func vfHTTPRule(verb, tmpl string) *annotations.HttpRule {
-	r := &annotations.HttpRule{}
-	switch verb {
-	case "GET":
-		r.Pattern = &annotations.HttpRule_Get{Get: tmpl}
-	case "POST":
-		r.Pattern = &annotations.HttpRule_Post{Post: tmpl}
-	case "PUT":
-		r.Pattern = &annotations.HttpRule_Put{Put: tmpl}
-	case "DELETE":
-		r.Pattern = &annotations.HttpRule_Delete{Delete: tmpl}
-	case "PATCH":
-		r.Pattern = &annotations.HttpRule_Patch{Patch: tmpl}
-	default:
-		r.Pattern = &annotations.HttpRule_Custom{Custom: &annotations.CustomHttpPattern{Kind: verb, Path: tmpl}}
-	}
-	return r
 }
 
 type vfBuilt struct {
@@ -122,35 +93,7 @@ func vfVerb() string {
 	return "OTHER"
 }
 
-// vfRoute: a request path as Mux.ServeHTTP hands it to match: it starts with '/' (the mux prepends
-// one otherwise); all bytes ASCII in this tier.
-func vfRoute(max int) string {
-	n := 1 + vfLen(max-1)
-	s := vfAsciiString(n)
-	vfAssume(s[0] == '/')
-	return s
-}
-
-func vfAsciiString(n int) string {
-	s := vfString(n)
-	for i := 0; i < n; i++ {
-		vfAssume(s[i] < 0x80)
-	}
-	return s
-}
-
 func vfFieldPath(fds []interface{ Name() string }) string { return "" }
-
-func vfParamField(p param) string {
-	s := ""
-	for i, fd := range p.fds {
-		if i > 0 {
-			s += "."
-		}
-		s += string(fd.Name())
-	}
-	return s
-}
 
 // vfParamsMatch: the params with a field path are exactly the rule's variables with the reference
 // captures (order is not part of the claim); params without a field path carry no value.
